@@ -17,11 +17,19 @@ Proved for ALL computations built from these combinators (`Lemmas/ParserMonad.le
   numbers with `unescape_string`): `C08_value_layer_lockstep`, for all input byte strings and all value specs
   — e.g. an over-long value, a malformed entity, a non-number are warnings in lenient mode and THE error of
   strict mode.
-Partial: the element-level parser (`parse_element`, multiplicity / choice / version checks) is not yet
-written in this monad; its agreement and the "no holes" list are checked on the real library by the
-document scenario (valid documents with injected defects of every documented class, both modes).
+* `C08_whole_parser_lockstep`: the WHOLE parser as modelled in `Model/Parser.lean` (`parse_arxml` with the file header,
+  `parse_element` with the sub-element lookup, version, choice, multiplicity and SHORT-NAME checks, `parse_attribute_text`,
+  `parse_character_data` for all five value kinds) is lock-step; `C08_whole_parser_rules` spells the three rules out for
+  `runParser`: a lenient run without warnings is IDENTICAL to the strict run (same tree, same state), and if the lenient
+  run has warnings the strict run fails with exactly the first of them.  The model is tied to `parser.rs` by the `load`
+  requests of the correspondence run (tree, index, references, kind and line of every warning and error).
+Partial: "an input that lenient loading rejects is rejected by strict loading" follows from the above for the model; the
+"no holes" list (a document that violates a documented constraint is never accepted by strict loading) is checked on the
+real library by the document scenario (valid documents with injected defects of every documented class, both modes).
 -/
 import AutosarVerif.Lemmas.ParserMonad
+import AutosarVerif.Lemmas.Parser
+import AutosarVerif.Model.ToyEnv
 
 namespace AV.C08
 open AV.PM
@@ -43,12 +51,45 @@ theorem C08_value_layer_lockstep (input : Bytes) (spec : CSpec) : Lock (parseCha
 
 theorem C08_unescape_lockstep (fuel : Nat) (s : Bytes) : Lock (unescapeP fuel s) := (unescapeP_props fuel s).1
 
+theorem C08_whole_parser_lockstep (S : Spec) (V : W.Env) (fuel nmAutosar : Nat) : Lock (parseArxml S V fuel nmAutosar) :=
+  (LM_parseArxml S V fuel nmAutosar).1
+
+/-- the agreement rules for a whole document -/
+theorem C08_whole_parser_rules (S : Spec) (V : W.Env) (buf : Bytes) (firstId nmAutosar : Nat) :
+    ((runParser S V false buf firstId nmAutosar).2.warnings = [] →
+      runParser S V true buf firstId nmAutosar = runParser S V false buf firstId nmAutosar) ∧
+    (∀ w ws, (runParser S V false buf firstId nmAutosar).2.warnings = w :: ws →
+      (runParser S V true buf firstId nmAutosar).1 = .error w) :=
+  lock_rules _ (LM_parseArxml S V _ nmAutosar).1 _ rfl
+
 /-! non-vacuity: "a&bogus;" as a string value: lenient continues with one warning, strict fails with it -/
 def bogus : Bytes := [97, 38, 98, 111, 103, 117, 115, 59]
-example : ((parseCharData bogus (.string false none)) false ⟨[], 3⟩).2.warnings = [⟨kInvalidXmlEntity, 3⟩] := by decide
-example : (match ((parseCharData bogus (.string false none)) true ⟨[], 3⟩).1 with
+example : ((parseCharData bogus (.string false none)) false { warnings := [], line := 3 }).2.warnings = [⟨kInvalidXmlEntity, 3⟩] := by decide
+example : (match ((parseCharData bogus (.string false none)) true { warnings := [], line := 3 }).1 with
     | .error e => decide (e = ⟨kInvalidXmlEntity, 3⟩) | .ok _ => false) = true := by decide
-example : (match ((parseCharData [49, 50] .uint) true ⟨[], 1⟩).1 with
+example : (match ((parseCharData [49, 50] .uint) true { warnings := [], line := 1 }).1 with
     | .ok v => decide (v = .uint 12) | .error _ => false) = true := by decide
+
+end AV.C08
+
+namespace AV.C08
+open AV.PM AV.W
+
+/-! non-vacuity for the element level (toy specification and names, `Model/ToyEnv.lean`): the content of the root <R> of a
+V2 file, in which the element <A>, its attribute T and the enumeration item "seven" exist in V1 only -/
+/-- `<A T="x">seven</A><B>hi</B></R>` -/
+def toyBody : Bytes := [60, 65, 32, 84, 61, 34, 120, 34, 62, 115, 101, 118, 101, 110, 60, 47, 65, 62, 60, 66, 62, 104, 105, 60, 47, 66, 62, 60, 47, 82, 62]
+def rootHdr : Hdr := { id := 0, name := 100, ety := ⟨0, 0⟩, parent := .none, attrs := [], files := [], comment := none }
+def st0 : PState := { warnings := [], line := 1, lx := ⟨toyBody, 1, none⟩, ver := 2, nextId := 1 }
+
+-- lenient: three warnings (element, attribute, enumeration item not in this version), all on line 1
+example : ((pLoop toySpec toyEnv 40 rootHdr {} false st0).2.warnings.map fun e => (e.kind, e.line)) =
+    [(kElementVersionError, 1), (kAttributeVersionError, 1), (kEnumItemVersionError, 1)] := by decide +kernel
+-- strict: fails with exactly the first of them
+example : (match (pLoop toySpec toyEnv 40 rootHdr {} true st0).1 with
+    | .error e => decide (e = ⟨kElementVersionError, 1⟩) | .ok _ => false) = true := by decide +kernel
+-- the content built by the lenient run: A(e1) = "seven" and B(e2) = "hi"
+example : (match (pLoop toySpec toyEnv 40 rootHdr {} false st0).1 with
+    | .ok k => decide (k.ids = [1, 2]) | .error _ => false) = true := by decide +kernel
 
 end AV.C08
